@@ -2,6 +2,7 @@ package lib
 
 import (
 	"fmt"
+	"math"
 	"sort"
 	"strconv"
 	"strings"
@@ -380,7 +381,7 @@ func NumberLiteral(v any) *Node {
 			return Int(x)
 		}
 	case float64:
-		if x >= 0 && x < 1e15 {
+		if x >= 0 && !math.Signbit(x) && x < 1e15 { // (-0 is >= 0 and is written with a sign)
 			t := strconv.FormatFloat(x, 'f', -1, 64)
 			if !strings.Contains(t, ".") {
 				t += ".0"
